@@ -41,7 +41,8 @@ CONSTANTS MaxActions,   \* bound on the number of builder actions
           Kinds,        \* field kinds enabled in this run (subset of DOMAIN KindTable)
           Blocks,       \* enabled block actions, subset of {"para","list","lit","doctest","code","section","version","poison"};
                         \* "typed" \in Blocks switches the bodies of type fields to structured type expressions
-          Hows,         \* histories by which the object gets the docstring, subset of {"direct", "assigned", "inherited"}
+          Hows,         \* histories by which the object gets the docstring, subset of
+                        \* {"direct", "assigned", "inherited", "narrowed", "twin", "moved"}
           Forms,        \* ways of writing a field enabled in this run, subset of {"plain", "cbullet", "cdef", "nsee"}
           FreeChoice    \* TRUE: inline style and verbatim template are free choices
                         \* FALSE: they rotate with the word counter (every one occurs, in varying contexts)
@@ -116,8 +117,8 @@ KindTable ==
     "type"       :> KR("param",   {"pa", "pb", ""},    {"function", "attribute"}, "type") @@
     "return"     :> KR("return",  {""},                {"function", "property"}, "return") @@
     "returns"    :> KR("return",  {""},                {"function", "property"}, "return") @@
-    "rtype"      :> KR("return",  {""},                {"function"},          "rtype") @@
-    "returntype" :> KR("return",  {""},                {"function"},          "rtype") @@
+    "rtype"      :> KR("return",  {""},                {"function", "property"}, "rtype") @@
+    "returntype" :> KR("return",  {""},                {"function", "property"}, "rtype") @@
     "yield"      :> KR("yield",   {""},                {"function"},          "yield") @@
     "yields"     :> KR("yield",   {""},                {"function"},          "yield") @@
     "ytype"      :> KR("yield",   {""},                {"function"},          "ytype") @@
@@ -270,7 +271,7 @@ OpenSection(level) ==
 
 \* ---- AddField(kind, arg, host, style, form): fields come last, each starts with a paragraph (a type is one word)
 HostChoice(kind) == LET hs == hosts \cap KindTable[kind].hosts
-                    IN IF kind \in VarLike \cup {"return", "returns", "type"} THEN {{x} : x \in hs}
+                    IN IF kind \in VarLike \cup {"return", "returns", "type", "rtype", "returntype"} THEN {{x} : x \in hs}
                        ELSE IF hs = {} THEN {} ELSE {hs}
 \* inl: the variable that an ivar / cvar / var field of a class / module docstring documents ALSO has a docstring of its own
 \* below its assignment (one fresh word, iw); pydoctor presents the field's text, so that docstring must be reported
@@ -332,6 +333,8 @@ Fields(d) == [k \in 1..Len(FieldNodes(d)) |->
                  where |-> IF f.kind \in VarLike /\ Host \in {"class", "module"} THEN "attribute"
                            ELSE IF Host = "property" /\ f.kind = "return" /\ Text(d) = <<>> THEN "description"
                            ELSE IF Host = "attribute" /\ f.kind = "type" THEN "typeline"
+                           \* a property's rtype is its type, shown in the header like an attribute's (_handlePropertyDef)
+                           ELSE IF Host = "property" /\ f.kind = "rtype" THEN "typeline"
                            ELSE "row",
                  \* word of the documented variable's own docstring (0 = it has none): shown with the variable or reported
                  inline |-> f.iw,
@@ -349,14 +352,23 @@ OracleSane == /\ NonDecreasing(AllWords)
 
 \* ------------------------------------------------------------------ emission (spec -> code)
 ASSUME PrintT(ToJson([templates |-> Templates]))
-\* HISTORIES.  The same document reaches the rendered object in one of three ways; what must be shown does not change:
+\* HISTORIES.  The same document reaches the rendered object in one of several ways; what must be shown does not change:
 \*   direct    : it is the object's own docstring
 \*   assigned  : the object (class, property, function) has some OTHER, stale docstring of its own - parsed while the AST
 \*               is built for classes and properties - and gets this one later through  X.__doc__ = "..."  : the words of
 \*               the FINAL docstring are shown, none of the stale one (fields that create attributes are only extracted
 \*               from the docstring present when the class is visited: not combined with this history)
 \*   inherited : it is the docstring of the method that the rendered method overrides; the rendered one has none
+\*   narrowed  : inherited, and the overriding method takes fewer parameters: def f(self, pa) - fields about pb, *va, **kw
+\*               name parameters the rendered signature lacks (their text is still the documentation of the method)
+\*   twin      : the object is the SECOND of two members of one class (two methods, two properties) that carry the same
+\*               docstring text; the first one is built and rendered before it
+\*   moved     : the docstring belongs to a method of a class written in a module that declares __docformat__ = <format>,
+\*               re-exported (from ._impl import C; __all__ = ['C']) by a package of a system whose default docformat is
+\*               ANOTHER one: the class is moved before its members' docstrings are parsed
 ValidHow(hw) == \/ hw = "direct"
+                \/ hw \in {"narrowed", "moved"} /\ Host = "function"
+                \/ hw = "twin" /\ Host \in {"function", "property"}
                 \/ hw = "assigned" /\ Host \in {"class", "property", "function"}
                                    /\ \A k \in 1..Len(Fields(doc)) : Fields(doc)[k].where # "attribute"
                 \/ hw = "inherited" /\ Host = "function"
